@@ -117,6 +117,8 @@ class Realizer:
             return t.name
         if isinstance(t, Con):
             return f"Annotated[{self.expr(t.base)}, {cons_src(t.cons)}]"
+        if isinstance(t, Uni) and t.pep604:
+            return "(" + " | ".join("None" if a == Prim("none") else self.expr(a) for a in t.alts) + ")"
         if isinstance(t, Uni):
             if len(t.alts) == 2 and t.alts[1] == Prim("none") and t.alts[0] != Prim("none"):
                 return f"Optional[{self.expr(t.alts[0])}]"
